@@ -20,7 +20,7 @@ ALL = ["ConvexPolyhedron", "Polyhedron", "ConvexSpheropolyhedron", "Polygon", "C
        "Circle", "Ellipse", "Sphere", "Ellipsoid"]
 # a second base per class where absolute tolerances could hide: the same wedge in nanometres
 BASE2 = {"ConvexPolyhedron": "wedge5_nano", "Polyhedron": "wedge5_nano", "ConvexSpheropolyhedron": "wedge5_r_nano",
-         "Polygon": "dart_negnormal"}        # vertices clockwise about the stored normal (signed_area < 0)
+         "Polygon": "rect_negnormal"}        # vertices clockwise about the stored normal (signed_area < 0)
 BASE = {"ConvexPolyhedron": "wedge5", "Polyhedron": "wedge5", "ConvexSpheropolyhedron": "wedge5_r",
         "Polygon": "dart_cw", "ConvexPolygon": "kite", "ConvexSpheropolygon": "kite_r",
         "Circle": "circle", "Ellipse": "ellipse_ab", "Sphere": "sphere", "Ellipsoid": "ellipsoid_abc"}
